@@ -314,6 +314,8 @@ def validate_trace(wd, module, cfg, trace_path, nsplit=None, timeout=1800, env=N
             if consumed >= n and r.rc == 0:
                 acc += n; cur = hi; break
             post_false = bool(re.search(r'Postcondition \S+ .* is false', r.out))
+            if 'Parsing or semantic analysis failed' in r.out or 'java.lang.NoClassDefFoundError' in r.out:
+                infra.append('trace specification does not parse: ' + r.out[-600:]); break
             if not post_false:
                 # TLC stopped for a reason other than an unexplained record (evaluation error, stack overflow, bad
                 # JSON ...): an infrastructure problem of the validator, never a verdict about the implementation.
